@@ -39,9 +39,9 @@ if __name__ == "__main__":
     base = sys.argv[1].rstrip("/")
     if len(sys.argv) > 2 and sys.argv[2] == "4":  # wave 4: other places than the two hot functions
         T = T.replace(T[T.index("This library has already been hardened"):T.index("Also write a demonstration")], HINT4)
-    if len(sys.argv) > 2 and sys.argv[2] == "5":  # wave 5: later clauses of the statement, other families of change
+    if len(sys.argv) > 2 and sys.argv[2] in ("5","6"):  # wave 5: later clauses of the statement, other families of change
         import os
-        hint5 = open(os.path.join(os.path.dirname(os.path.abspath(__file__)), "mutprompt_hint5.txt")).read()
+        hint5 = open(os.path.join(os.path.dirname(os.path.abspath(__file__)), "mutprompt_hint%s.txt" % sys.argv[2])).read()
         T = T.replace(T[T.index("This library has already been hardened"):T.index("Also write a demonstration")], hint5)
     for l in open('/verif/properties.jsonl'):
         p = json.loads(l)
